@@ -29,9 +29,9 @@ SHAPES = {
     ]),
     "prefixed": dict(fields=[("p", "Prefixed")], values=[
         ("1000m", dict(p=("1000", -3))), ("1U", dict(p=("1", 0))), ("1.000U", dict(p=("1.000", 0))), ("1n", dict(p=("1", -9))), ("0.001K", dict(p=("0.001", 3))),
-        ("1.0000000000000000001", dict(p=("1.0000000000000000001", 0))), ("2U", dict(p=("2", 0))),
+        ("1.0000000000000000001", dict(p=("1.0000000000000000001", 0))), ("2U", dict(p=("2", 0))), ("-1U", dict(p=("-1", 0))), ("5m", dict(p=("5", -3))), ("-5m", dict(p=("-5", -3))), ("-0.005U", dict(p=("-0.005", 0))),
     ]),
-    "scalar": dict(fields=[("s", "Scalar")], values=[("1", dict(s=1)), ("'1'", dict(s="1")), ("1.0", dict(s=1.0)), ("'w/5'", dict(s="w/5")), ("'w/6'", dict(s="w/6")), ("2", dict(s=2))]),
+    "scalar": dict(fields=[("s", "Scalar")], values=[("1", dict(s=1)), ("'1'", dict(s="1")), ("1.0", dict(s=1.0)), ("'w/5'", dict(s="w/5")), ("'w/6'", dict(s="w/6")), ("2", dict(s=2)), ("-2", dict(s=-2)), ("'-2.0'", dict(s="-2.0"))]),
     "hdl": dict(fields=[("m", "Instantiable")], values=[("ModA", dict(m="ModA")), ("ModB", dict(m="ModB")), ("R1", dict(m="R1")), ("R2", dict(m="R2")), ("E1", dict(m="E1")), ("E2", dict(m="E2"))]),
 }
 
